@@ -14,6 +14,7 @@ import (
 	"os/exec"
 	"path/filepath"
 	"runtime"
+	"runtime/pprof"
 	"sort"
 	"strconv"
 	"strings"
@@ -56,6 +57,7 @@ type Result struct {
 	ScopePerStratum     map[string]int `json:"scope_cases_per_stratum"`
 	NullableFamilyCases int            `json:"nullable_family_cases"`
 	Aborted             string         `json:"aborted,omitempty"`
+	ExpandRegdefs       bool           `json:"expand_regdefs,omitempty"`
 	NotRun              int            `json:"not_run"`
 	StarvedRetries      int            `json:"starved_retries"`
 	ElapsedSeconds      float64        `json:"elapsed_seconds"`
@@ -97,6 +99,7 @@ type runner struct {
 	timeout time.Duration
 	tmp     string
 	retries int32 // runs repeated because a wall-clock timeout hit a starved child
+	expand  bool  // self-check: give gocc the macro-expanded grammar
 }
 
 type outcome struct {
@@ -138,7 +141,15 @@ func (r *runner) runCase(c Case) (out outcome) {
 	if err := os.WriteFile(filepath.Join(dir, "go.mod"), []byte("module x\n\ngo 1.24\n"), 0o644); err != nil {
 		return outcome{fails: []Fail{mk("internal", err.Error(), "")}}
 	}
-	if err := os.WriteFile(filepath.Join(dir, "g.bnf"), []byte(c.Text), 0o644); err != nil {
+	bnf := c.Text
+	if r.expand {
+		ex := c.G.Expanded()
+		if predictedHang(ex) {
+			return outcome{} // expansion made a repetition body nullable: gocc would hang
+		}
+		bnf = ex.Text()
+	}
+	if err := os.WriteFile(filepath.Join(dir, "g.bnf"), []byte(bnf), 0o644); err != nil {
 		return outcome{fails: []Fail{mk("internal", err.Error(), "")}}
 	}
 	timeout := r.timeout
@@ -252,7 +263,16 @@ func cmdSweep(args []string) int {
 	timeout := fs.Duration("timeout", 10*time.Second, "gocc timeout per case")
 	maxTimeouts := fs.Int("max-timeouts", 150, "abort the sweep after this many timeouts outside the nullable-body family")
 	tmp := fs.String("tmp", "", "scratch directory (default $TMPDIR, else /tmp)")
+	expand := fs.Bool("expand-regdefs", false, "self-check of the reference: run gocc on the macro-expanded grammar (no regular definitions left) and compare with the reference of the ORIGINAL grammar; expected: no failures")
+	cpuprofile := fs.String("cpuprofile", "", "write a CPU profile of lexref itself to this file")
 	fs.Parse(args)
+	if *cpuprofile != "" {
+		f, err := os.Create(*cpuprofile)
+		if err == nil {
+			pprof.StartCPUProfile(f)
+			defer pprof.StopCPUProfile()
+		}
+	}
 	if *gocc == "" {
 		fmt.Fprintln(os.Stderr, "lexref sweep: -gocc is required")
 		return 2
@@ -327,7 +347,7 @@ func cmdSweep(args []string) int {
 	}
 	res.Cases = len(todo)
 
-	r := &runner{gocc: goccAbs, timeout: *timeout, tmp: *tmp}
+	r := &runner{gocc: goccAbs, timeout: *timeout, tmp: *tmp, expand: *expand}
 	var mu sync.Mutex
 	var unexpectedTimeouts int32
 	var aborted atomic.Bool
@@ -402,6 +422,7 @@ func cmdSweep(args []string) int {
 	if aborted.Load() {
 		res.Aborted = fmt.Sprintf("more than %d timeouts outside the nullable-body family; remaining cases not run", *maxTimeouts)
 	}
+	res.ExpandRegdefs = *expand
 	res.NotRun = int(notRun)
 	res.StarvedRetries = int(atomic.LoadInt32(&r.retries))
 	sort.Slice(res.Fails, func(i, j int) bool {
